@@ -148,6 +148,7 @@ type localDef struct {
 	path   []string
 	copyOf string
 	ok     bool
+	addr   bool // the local is bound to an address-of expression (&n.Body passed to a helper): never nil
 }
 
 func (rs *resolver) resolve(e ast.Expr) (path []string, copyOf string, ok bool) {
@@ -229,7 +230,16 @@ func (rs *resolver) collect(stmts []ast.Stmt, guards []wguard, out *[]wcall, bad
 					for _, nm := range fld.Names {
 						if pi < len(ce.Args) {
 							if pth, c, ok := rs.resolve(ce.Args[pi]); ok {
-								child.locals[info.Defs[nm]] = localDef{path: pth, copyOf: c, ok: true}
+								d := localDef{path: pth, copyOf: c, ok: true}
+								switch a := ast.Unparen(ce.Args[pi]).(type) {
+								case *ast.UnaryExpr:
+									d.addr = a.Op == token.AND
+								case *ast.Ident:
+									if ld, has := rs.locals[info.Uses[a]]; has {
+										d.addr = ld.addr
+									}
+								}
+								child.locals[info.Defs[nm]] = d
 							}
 						}
 						pi++
@@ -247,6 +257,11 @@ func (rs *resolver) collect(stmts []ast.Stmt, guards []wguard, out *[]wcall, bad
 			arg := ast.Unparen(ce.Args[1])
 			if u, ok := arg.(*ast.UnaryExpr); ok && u.Op == token.AND {
 				wc.addr = true
+			}
+			if id, ok := arg.(*ast.Ident); ok {
+				if ld, has := rs.locals[info.Uses[id]]; has && ld.addr {
+					wc.addr = true
+				}
 			}
 			wc.argT = info.Types[arg].Type
 			wc.path, wc.copyOf, wc.ok = rs.resolve(arg)
@@ -402,66 +417,108 @@ func runWalk(r *core.Run) {
 			}
 		}
 	}
-	var ts *ast.TypeSwitchStmt
-	for _, st := range fd.Body.List {
-		if s, ok := st.(*ast.TypeSwitchStmt); ok {
-			ts = s
+	// the dispatch: the type switch(es) over the node — in Walk itself, or in helpers that Walk calls with the node
+	// (Walk keeps Enter/Exit, walkChildren holds the switch; or a chain of per-family dispatchers, each with its own
+	// switch, tried one after the other)
+	var switches []*ast.TypeSwitchStmt
+	seenFn := map[*ast.FuncDecl]bool{}
+	var gather func(f *ast.FuncDecl, nodeParam types.Object, depth int)
+	gather = func(f *ast.FuncDecl, nodeParam types.Object, depth int) {
+		if f == nil || f.Body == nil || seenFn[f] || depth > 3 {
+			return
 		}
-	}
-	if ts == nil {
-		// the dispatch may live in a helper that Walk calls with the node (Walk keeps Enter/Exit, walkChildren the switch)
-		for _, st := range fd.Body.List {
-			es, ok := st.(*ast.ExprStmt)
-			if !ok {
-				continue
-			}
-			ce, ok := es.X.(*ast.CallExpr)
-			if !ok {
-				continue
-			}
-			id, ok := ast.Unparen(ce.Fun).(*ast.Ident)
-			if !ok {
-				continue
-			}
-			if hd, isH := helpers[pk.TypesInfo.Uses[id]]; isH {
-				for _, hs := range hd.Body.List {
-					if s, ok := hs.(*ast.TypeSwitchStmt); ok {
-						ts = s
+		seenFn[f] = true
+		ast.Inspect(f.Body, func(n ast.Node) bool {
+			switch x := n.(type) {
+			case *ast.TypeSwitchStmt:
+				// switch n := n.(type) / switch n.(type) over the node parameter
+				var subj ast.Expr
+				switch a := x.Assign.(type) {
+				case *ast.AssignStmt:
+					if len(a.Rhs) == 1 {
+						if ta, ok := a.Rhs[0].(*ast.TypeAssertExpr); ok {
+							subj = ta.X
+						}
+					}
+				case *ast.ExprStmt:
+					if ta, ok := a.X.(*ast.TypeAssertExpr); ok {
+						subj = ta.X
+					}
+				}
+				if id, ok := ast.Unparen(subj).(*ast.Ident); ok && pk.TypesInfo.Uses[id] == nodeParam {
+					switches = append(switches, x)
+				}
+				return false // arms are analysed separately
+			case *ast.CallExpr:
+				id, ok := ast.Unparen(x.Fun).(*ast.Ident)
+				if !ok {
+					return true
+				}
+				hd, isH := helpers[pk.TypesInfo.Uses[id]]
+				if !isH || pk.TypesInfo.Uses[id] == w.walkFn {
+					return true
+				}
+				// which parameter receives the node?
+				pi := 0
+				for _, fld := range hd.Type.Params.List {
+					for _, nm := range fld.Names {
+						if pi < len(x.Args) {
+							if aid, ok := ast.Unparen(x.Args[pi]).(*ast.Ident); ok && pk.TypesInfo.Uses[aid] == nodeParam {
+								gather(hd, pk.TypesInfo.Defs[nm], depth+1)
+							}
+						}
+						pi++
 					}
 				}
 			}
+			return true
+		})
+	}
+	var nodeParam types.Object
+	for _, fld := range fd.Type.Params.List {
+		for _, nm := range fld.Names {
+			if types.Identical(pk.TypesInfo.Defs[nm].Type().Underlying(), w.inode) || types.Implements(pk.TypesInfo.Defs[nm].Type(), w.inode) {
+				nodeParam = pk.TypesInfo.Defs[nm]
+			}
 		}
 	}
-	if ts == nil {
-		r.Unknown("Walk type switch", fd.Pos(), "Walk has no top-level type switch over the node")
+	gather(fd, nodeParam, 0)
+	if len(switches) == 0 {
+		r.Unknown("Walk type switch", fd.Pos(), "neither Walk nor a helper it hands the node to has a type switch over the node")
 		return
 	}
 	arms := map[string]*ast.CaseClause{}
-	for _, c := range ts.Body.List {
-		cc := c.(*ast.CaseClause)
-		if cc.List == nil {
-			continue // default
-		}
-		if len(cc.List) != 1 {
-			// multi-type arm: n keeps the interface type; accepted only for childless types
-			for _, te := range cc.List {
-				if n, _ := structOf(pk.TypesInfo.Types[te].Type); n != nil {
-					arms[n.Obj().Name()] = cc
-				}
+	for _, ts := range switches {
+		for _, c := range ts.Body.List {
+			cc := c.(*ast.CaseClause)
+			if cc.List == nil {
+				continue // default
 			}
-			continue
+			if len(cc.List) != 1 {
+				// multi-type arm: n keeps the interface type; accepted only for childless types
+				for _, te := range cc.List {
+					if n, _ := structOf(pk.TypesInfo.Types[te].Type); n != nil {
+						arms[n.Obj().Name()] = cc
+					}
+				}
+				continue
+			}
+			t := pk.TypesInfo.Types[cc.List[0]].Type
+			if _, ok := t.(*types.Pointer); !ok {
+				r.Unknown("arm "+types.ExprString(cc.List[0]), cc.Pos(), "arm type is not a pointer to a node struct")
+				continue
+			}
+			n, _ := structOf(t)
+			if n == nil {
+				r.Unknown("arm "+types.ExprString(cc.List[0]), cc.Pos(), "arm type is not a pointer to a named struct")
+				continue
+			}
+			if prev, dup := arms[n.Obj().Name()]; dup && prev != cc {
+				r.Unknown("arm "+types.ExprString(cc.List[0]), cc.Pos(), "two dispatch switches have an arm for this type: which one runs is not decided")
+				continue
+			}
+			arms[n.Obj().Name()] = cc
 		}
-		t := pk.TypesInfo.Types[cc.List[0]].Type
-		if _, ok := t.(*types.Pointer); !ok {
-			r.Unknown("arm "+types.ExprString(cc.List[0]), cc.Pos(), "arm type is not a pointer to a node struct")
-			continue
-		}
-		n, _ := structOf(t)
-		if n == nil {
-			r.Unknown("arm "+types.ExprString(cc.List[0]), cc.Pos(), "arm type is not a pointer to a named struct")
-			continue
-		}
-		arms[n.Obj().Name()] = cc
 	}
 	r.Floor("Walk arms", len(arms), 50)
 
@@ -628,6 +685,11 @@ func runWalk(r *core.Run) {
 					if !types.Implements(mi.Type(), w.inode) {
 						continue // e.g. fmt.Stringer / error: not a tree slot
 					}
+				}
+				// a boxed value that is only looked at (n.JS(), n.String() inside a helper that takes an INode) never
+				// becomes part of a tree; one that is stored, returned or handed to Walk can
+				if !ifaceEscapes(r, mi, 0) {
+					continue
 				}
 				boxed[n.Obj().Name()] = append(boxed[n.Obj().Name()], "in "+fnLabel(fn))
 			}
@@ -867,4 +929,64 @@ func instrIndex(in ssa.Instruction) int {
 		}
 	}
 	return -1
+}
+
+// ifaceEscapes: can the interface value v end up in a tree or in Walk? It does not if every use is a method call
+// on it, a nil comparison, or an argument position of a module function whose parameter does not escape either.
+func ifaceEscapes(r *core.Run, v ssa.Value, depth int) bool {
+	if depth > 3 {
+		return true
+	}
+	refs := v.Referrers()
+	if refs == nil {
+		return true
+	}
+	for _, ref := range *refs {
+		switch x := ref.(type) {
+		case *ssa.DebugRef:
+		case *ssa.BinOp:
+			// comparison with nil / another interface
+		case *ssa.ChangeInterface:
+			if ifaceEscapes(r, x, depth+1) {
+				return true
+			}
+		case *ssa.TypeAssert:
+			// the asserted value is a copy of the struct or a pointer that already existed
+		case *ssa.Phi:
+			if ifaceEscapes(r, x, depth+1) {
+				return true
+			}
+		case ssa.CallInstruction:
+			cc := x.Common()
+			if cc.IsInvoke() && cc.Value == v {
+				onlyRecv := true
+				for _, a := range cc.Args {
+					if a == v {
+						onlyRecv = false
+					}
+				}
+				if onlyRecv {
+					continue // a method call on the value
+				}
+				return true
+			}
+			g := cc.StaticCallee()
+			if g == nil || fnPkg(g) == nil || !core.InModule(fnPkg(g)) || len(g.Blocks) == 0 {
+				return true
+			}
+			if g.Name() == "Walk" && g.Signature.Recv() == nil {
+				return true
+			}
+			for i, a := range cc.Args {
+				if a == v {
+					if i >= len(g.Params) || ifaceEscapes(r, g.Params[i], depth+1) {
+						return true
+					}
+				}
+			}
+		default:
+			return true // stored, returned, put in a slice, converted to any, ...
+		}
+	}
+	return false
 }
